@@ -162,7 +162,7 @@ func cmdCheck(args []string) int {
 	}
 	var mirrorUsed []string
 	for _, cf := range cfs {
-		if prog.pkgByPath(cf.Pkg) == nil {
+		if prog.pkgByPath(cf.Pkg) == nil && cf.Pkg != "_prelude" {
 			continue
 		}
 		if err := prog.addContractFile(cf); err != nil {
